@@ -52,6 +52,13 @@ func writeEvidence(p *Prop, tier string, seed uint64, results []*subResult, viol
 			"simulated_time_s": r.simTime.Seconds(),
 		})
 	}
+	// the distinct counts are hash-sampled estimates above 131072 per worker: never report more than was run
+	if distLogs > nontriv {
+		distLogs = nontriv
+	}
+	if distinct > runs {
+		distinct = runs
+	}
 	if len(samples) == 0 {
 		samples = append(samples, "no non-trivial sample was recorded in this run")
 	}
